@@ -26,7 +26,9 @@ import (
 	"github.com/sergeymakinen/go-crypt/sha256"
 	"github.com/sergeymakinen/go-crypt/sha512"
 	"github.com/sergeymakinen/go-crypt/sunmd5"
+	"golang.org/x/crypto/blake2b"
 	"golang.org/x/crypto/blowfish"
+	"golang.org/x/crypto/md4"
 )
 
 func init() { corrs["C03"] = corrC03 }
@@ -91,6 +93,19 @@ func (m *modelProc) run(req string) (string, error) {
 		case "md5":
 			s := gomd5.Sum(unhx(p[2]))
 			reply = hx(s[:])
+		case "md4":
+			h := md4.New()
+			h.Write(unhx(p[2]))
+			reply = hx(h.Sum(nil))
+		case "blake2b":
+			var n int
+			fmt.Sscan(p[2], &n)
+			if h, err := blake2b.New(n, nil); err != nil {
+				reply = "-"
+			} else {
+				h.Write(unhx(p[3]))
+				reply = hx(h.Sum(nil))
+			}
 		case "sha256":
 			s := gosha256.Sum256(unhx(p[2]))
 			reply = hx(s[:])
